@@ -2,6 +2,7 @@ import Dcg.Driver.Proto
 import Dcg.Driver.Constraints
 import Dcg.Sem.Pyd
 import Dcg.Model.Names
+import Dcg.Model.Siblings
 /-
 Driver for the semantic model (C03/C04/C14): `validJ`, `tr` (IR dump), `acceptsTy`.
 Schemas, JSON values and the regular-expression oracle travel as S-expressions (see vlib/semlean.py).
@@ -90,6 +91,13 @@ partial def schema? : SX → Option Schema
   | .list [.atom "ref", n] => n.str?.map .ref
   | .list (.atom "anyOf" :: xs) => (xs.mapM schema?).map .anyOf
   | .list (.atom "oneOf" :: xs) => (xs.mapM schema?).map .oneOf
+  -- (sib (bounds …) (anyOf|oneOf …)): a combination with sibling keywords = the combination of the members with
+  -- the keywords merged in (`Dcg.Model.Translate.distribute`)
+  | .list [.atom "sib", .list (.atom "bounds" :: bs), u] =>
+    match bounds? bs, schema? u with
+    | some b, some (.anyOf alts) => some (.anyOf (distribute b alts))
+    | some b, some (.oneOf alts) => some (.oneOf (distribute b alts))
+    | _, _ => none
   | .list [.atom "allOf", .list refs, .list ps, .list req, .list xreq] =>
     match refs.mapM SX.str?, ps.mapM (fun (p : SX) => match p with
         | .list [k, s] => match k.str?, schema? s with
@@ -223,6 +231,14 @@ def handlers : List (String × Handler) := [
   ("sem.tr", fun
     | [st, o, c, s] => match style? st, opts? o, ctx? c, schema? s with
       | some st, some o, some c, some s => "ok " ++ showTy (tr st o c s)
+      | _, _, _, _ => "err args"
+    | _ => "err args"),
+  -- sem.trsib <style> <routing> (bounds …) <anyOf|oneOf schema>   (the type of a member that is a combination with
+  --   sibling keywords: `parse_combined_schema` over `_deep_merge(base_object, member)`)
+  ("sem.trsib", fun
+    | [st, o, .list (.atom "bounds" :: bs), u] => match style? st, opts? o, bounds? bs, schema? u with
+      | some st, some o, some b, some (.anyOf alts) => "ok " ++ showTy (trSib st o b alts)
+      | some st, some o, some b, some (.oneOf alts) => "ok " ++ showTy (trSib st o b alts)
       | _, _, _, _ => "err args"
     | _ => "err args"),
   -- sem.pfields <style> <routing> <snake_case_field 0|1> <allOf schema>
